@@ -299,8 +299,17 @@ func NewMultiCIDRRangeAllocator(
 			// we don't see the Update with DeletionTimestamp != 0.
 			// TODO: instead of executing the operation directly in the handler, build a small cache with key node.Name
 			// and value PodCIDRs use ReleaseCIDR on the reconcile loop so we can retry on `ReleaseCIDR` failures.
-			if err := ra.ReleaseCIDR(logger, obj.(*corev1.Node)); err != nil {
-				logger.Error(err, "failed to release CIDR")
+			node, ok := obj.(*corev1.Node)
+			if !ok {
+				// The delete notification may carry only the last known state of the object.
+				if tombstone, isTombstone := obj.(cache.DeletedFinalStateUnknown); isTombstone {
+					node, ok = tombstone.Obj.(*corev1.Node)
+				}
+			}
+			if ok {
+				if err := ra.ReleaseCIDR(logger, node); err != nil {
+					logger.Error(err, "failed to release CIDR")
+				}
 			}
 			// IndexerInformer uses a delta nodeQueue, therefore for deletes we have to use this
 			// key function.
